@@ -126,6 +126,7 @@ func analyseFor(p *asm.Prog) forFacts {
 }
 
 func runC08(c *Ctx) {
+	runPinned(c, "C08")
 	n := int64(12000)
 	if c.Thorough() {
 		n = 800000
